@@ -7,6 +7,7 @@ package main
 import (
 	"fmt"
 	"sort"
+	"strings"
 
 	"github.com/teivah/majorana/risc"
 )
@@ -297,6 +298,16 @@ func lockstep(c config, p rProg, ref *refState, obs *observation) lsResult {
 			}
 		}
 	}
+	if res.Stats.SquashedStores > 0 {
+		for _, d := range dyn {
+			if d.Squashed && d.Stores > 0 {
+				res.Class = "wrong-path-store"
+				res.Pc = d.Pc
+				res.Detail = fmt.Sprintf("squashed instruction pc=%d seq=%d performed a store", d.Pc, d.Seq)
+				return res
+			}
+		}
+	}
 	n := len(ref.Trace)
 	for k := 0; k < n; k++ {
 		step := ref.Trace[k]
@@ -405,6 +416,15 @@ func explain(p rProg, ref *refState, k int, got effect, gotMem []int8, wrongPath
 		return n
 	}
 	try := func(a, b int32, loaded []int8) bool {
+		if isLoad(in.Op) && a != step.A {
+			// a different base register value means a different address: use the bytes found there
+			sz := accessSize(in.Op)
+			addr := a + in.Imm
+			if addr < 0 || int(addr+sz) > len(ref.InitMem) {
+				return false
+			}
+			loaded = memBefore(ref, p, k, addr, sz)
+		}
 		r := evalIns(in, step.Pc, a, b, loaded, p.Labels)
 		if r.Err != "" {
 			return false
@@ -412,6 +432,7 @@ func explain(p rProg, ref *refState, k int, got effect, gotMem []int8, wrongPath
 		return effectEqual(effectOfRef(in, r), got)
 	}
 	// stale load: loaded bytes differ
+	loadDataWrong := false
 	if isLoad(in.Op) && gotMem != nil && len(gotMem) == len(step.Loaded) {
 		same := true
 		for i := range gotMem {
@@ -471,86 +492,101 @@ func explain(p rProg, ref *refState, k int, got effect, gotMem []int8, wrongPath
 					return fmt.Sprintf("future-load(dist=%d)", j-k)
 				}
 			}
-			return "wrong-load-data"
+			loadDataWrong = true
 		}
 	}
 	srcs := in.srcRegs()
-	for _, r := range srcs {
-		vals, steps := hist(r)
+	type cand struct {
+		v    int32
+		kind int // 0 current, 1 stale, 2 future, 3 wrong-path
+		age  int
+	}
+	cands := func(r int, cur int32) []cand {
+		cs := []cand{{cur, 0, 0}}
+		vals, _ := hist(r)
 		vals = append(vals, initial(r))
-		steps = append(steps, -1)
-		// vals[0] is the current (correct) value; older ones are vals[1:]
-		for age := 1; age < len(vals) && age <= 8; age++ {
-			a, b := step.A, step.B
-			if in.Rs1 == r {
-				a = vals[age]
-			}
-			if in.Rs2 == r {
-				b = vals[age]
-			}
-			if try(a, b, step.Loaded) {
-				dist := k - steps[0]
-				return fmt.Sprintf("stale-operand(%s,age=%d,writers=%d,dist=%d)", regNames[r], age, writersInWindow(r, 8), dist)
-			}
+		for age := 1; age < len(vals) && age <= 12; age++ {
+			cs = append(cs, cand{vals[age], 1, age})
 		}
-		// future values
-		for j := k + 1; j < len(ref.Trace) && j <= k+8; j++ {
+		for _, v := range wrongPath[r] {
+			cs = append(cs, cand{v, 3, 0})
+		}
+		for j := k + 1; j < len(ref.Trace) && j <= k+10; j++ {
 			t := ref.Trace[j]
 			if t.Res.WroteReg && p.Ins[t.Idx].Rd == r {
-				a, b := step.A, step.B
-				if in.Rs1 == r {
-					a = t.Res.Val
-				}
-				if in.Rs2 == r {
-					b = t.Res.Val
-				}
-				if try(a, b, step.Loaded) {
-					return fmt.Sprintf("future-operand(%s,dist=%d)", regNames[r], j-k)
-				}
+				cs = append(cs, cand{t.Res.Val, 2, j - k})
 			}
 		}
+		return cs
 	}
-	// a value produced by a squashed (wrong-path) instruction
-	for _, r := range srcs {
-		for _, v := range wrongPath[r] {
+	name := func(c cand, r int) string {
+		switch c.kind {
+		case 1:
+			return fmt.Sprintf("stale-operand(%s,age=%d,writers=%d)", regNames[r], c.age, writersInWindow(r, 8))
+		case 2:
+			return fmt.Sprintf("future-operand(%s,dist=%d)", regNames[r], c.age)
+		case 3:
+			return fmt.Sprintf("wrong-path-operand(%s)", regNames[r])
+		}
+		return ""
+	}
+	switch len(srcs) {
+	case 1:
+		r := srcs[0]
+		cur := step.A
+		if in.Rs1 != r {
+			cur = step.B
+		}
+		for _, c := range cands(r, cur)[1:] {
 			a, b := step.A, step.B
 			if in.Rs1 == r {
-				a = v
+				a = c.v
 			}
 			if in.Rs2 == r {
-				b = v
+				b = c.v
 			}
 			if try(a, b, step.Loaded) {
-				return fmt.Sprintf("wrong-path-operand(%s)", regNames[r])
+				return name(c, r)
+			}
+		}
+	case 2:
+		// srcs[0] is rs1 unless rs1 is zero/absent
+		r1, r2 := in.Rs1, in.Rs2
+		c1 := []cand{{step.A, 0, 0}}
+		c2 := []cand{{step.B, 0, 0}}
+		if r1 != 0 {
+			c1 = cands(r1, step.A)
+		}
+		if r2 != 0 {
+			c2 = cands(r2, step.B)
+		}
+		// single-operand explanations first
+		for _, x := range c1[1:] {
+			if try(x.v, step.B, step.Loaded) {
+				return name(x, r1)
+			}
+		}
+		for _, y := range c2[1:] {
+			if try(step.A, y.v, step.Loaded) {
+				return name(y, r2)
+			}
+		}
+		for _, x := range c1[1:] {
+			for _, y := range c2[1:] {
+				if try(x.v, y.v, step.Loaded) {
+					worst := x
+					wr := r1
+					if y.kind > x.kind {
+						worst, wr = y, r2
+					}
+					n := name(worst, wr)
+					return strings.Replace(n, "-operand(", "-operands(", 1)
+				}
 			}
 		}
 	}
-	if len(srcs) == 2 {
-		v1, _ := hist(srcs[0])
-		v2, _ := hist(srcs[1])
-		v1 = append(v1, initial(srcs[0]))
-		v2 = append(v2, initial(srcs[1]))
-		for a1 := 0; a1 < len(v1) && a1 <= 3; a1++ {
-			for a2 := 0; a2 < len(v2) && a2 <= 3; a2++ {
-				if a1 == 0 && a2 == 0 {
-					continue
-				}
-				a, b := step.A, step.B
-				if in.Rs1 == srcs[0] {
-					a = v1[a1]
-				} else {
-					b = v1[a1]
-				}
-				if in.Rs1 == srcs[1] {
-					a = v2[a2]
-				} else if in.Rs2 == srcs[1] {
-					b = v2[a2]
-				}
-				if try(a, b, step.Loaded) {
-					return fmt.Sprintf("stale-operands(%s age=%d,%s age=%d)", regNames[srcs[0]], a1, regNames[srcs[1]], a2)
-				}
-			}
-		}
+	if loadDataWrong {
+		return "wrong-load-data"
 	}
 	return "unexplained"
 }
